@@ -128,9 +128,13 @@ func c04Check(c *ev.Collector, k c04Case, baseline wireObs) {
 		return
 	}
 	bad := false
-	if !isPrefix(obs.Msgs, baseline.Msgs) {
+	sent := baseline.Msgs
+	if w.Want != nil {
+		sent = w.Want // what the sending application put in, not what this library made of the uncut body
+	}
+	if !isPrefix(obs.Msgs, sent) {
 		bad = true
-		viol("delivered-prefix", "not-a-prefix", "delivered %s is not a prefix of what the peer sent %s", shortMsgs(obs.Msgs), shortMsgs(baseline.Msgs))
+		viol("delivered-prefix", "not-a-prefix", "delivered %s is not a prefix of what the peer sent %s", shortMsgs(obs.Msgs), shortMsgs(sent))
 	}
 	cleanEnd := k.Script.End == "eof"
 	if !w.Request {
